@@ -67,6 +67,34 @@ def message_lines(msg):
     return out
 
 
+def excerpt_shape(msg):
+    """The excerpts of a rendered message are laid out consistently: the gutter bars of an excerpt stand in one column, line
+    numbers are right-aligned against them, and a caret line starts under the column the header names.  None, or a reason."""
+    ls = msg.split("\n")
+    hdr = re.compile(r"^(?:--- )?(?:.* - )?(\d+):(\d+)$")
+    for i, l in enumerate(ls):
+        m = hdr.match(l)
+        if not m or i + 2 >= len(ls) or not re.match(r"^\s*\|\s*$", ls[i + 1]):
+            continue
+        col = int(m.group(2))
+        bar = ls[i + 1].index("|")
+        k = i + 2
+        while k < len(ls) and ls[k].strip() != "" and not hdr.match(ls[k]):
+            if "|" not in ls[k] or ls[k].index("|") != bar:
+                return "excerpt at %s: gutter bars are not aligned (%r under %r)" % (m.group(0), ls[k], ls[i + 1])
+            left = ls[k][:bar]
+            if left.strip() and not left.endswith(" ") or (left.strip() and not re.match(r"^\s*\d+ $", left)):
+                return "excerpt at %s: malformed gutter %r" % (m.group(0), ls[k])
+            body = ls[k][bar + 1:]
+            if not left.strip() and body.strip() and set(body.strip()) == {"^"}:
+                # the caret line: one space after the bar, then the line's text columns (1-based column in the header)
+                start = len(body) - len(body.lstrip(" "))
+                if start != col:
+                    return "excerpt at %s: the carets start at column %d of the quoted line" % (m.group(0), start)
+            k += 1
+    return None
+
+
 def run(tier, seed):
     rep = common.Report(PROP, tier, "model_checking", seed)
     rng = random.Random(seed)
@@ -104,13 +132,27 @@ def run(tier, seed):
                     why = "rendered message quotes lines %s, expected %s" % ([l - 1 for l, _ in ml], exp)
                 elif any(q is not None and q != src_lines[l - 1] for l, q in ml):
                     why = "rendered message quotes text that is not the source line"
+                else:
+                    why = excerpt_shape(act.get("err_msg") or "")
             checked += 1
             depth_hist[len(exp)] = depth_hist.get(len(exp), 0) + 1
         if why:
             rep.violation("%s_%s" % (p["id"], name.replace("/", "_")),
                           {"property": PROP, "why": why, "source": src, "predicted": pr, "actual": act,
                            "expected_lines": exp})
+    # the `debug` clause: every debug expression is reported once, with the line its keyword is on (lib/dbg_lines.py)
+    import dbg_lines
+    dj, dw = [], []
+    for i in range(150 if quick else 3000):
+        src, want = dbg_lines.text(rng, 6)
+        dj.append({"id": "dbg%d" % i, "src": src, "limit_ms": 3000})
+        dw.append(want)
+    for job, want, r in zip(dj, dw, common.kv_parallel("run", dj)):
+        why = dbg_lines.judge(r.get("stdout"), want) if r.get("status") == "ok" else "the script failed: %s %s" % (r.get("status"), (r.get("err_msg") or "")[:200])
+        if why:
+            rep.violation(job["id"], {"property": PROP, "why": why, "source": job["src"], "debug_lines": {str(k): v for k, v in want.items()}, "actual": r.get("stdout")})
     rep.coverage = {
+        "debug_texts": len(dj), "debug_contexts": len(dbg_lines.CONTEXTS),
         "states": st["states"], "transitions": st["transitions"], "traces_validated_against_impl": checked,
         "samples": [kast.render(asts[0]), kast.render(asts[1])],
         "evaluations": len(jobs), "distinct_nontrivial": sum(1 for p in progs if preds[p["id"]]["status"] == "err"),
@@ -120,12 +162,21 @@ def run(tier, seed):
         "trace_depth_histogram": depth_hist, "exhaustive": False,
     }
     rep.assumptions = ["call chains through script functions, through functions run by fold / each / keep / to_tuple / count, and through "
-                       "generators consumed by for or next, and through overloaded arithmetic operators are predicted; other core-library callbacks are not", "compile-error positions are checked by C10's block-prefix check"]
+                       "generators consumed by for or next, and through overloaded arithmetic operators are predicted; other core-library callbacks are not", "compile-error positions are checked by C10's block-prefix check",
+                       "the debug clause is a positional oracle of the harness (20 contexts stacked in random order), not a TLA+ prediction"]
     return rep.finish()
 
 
 def replay(path):
     d = json.load(open(path))
+    if "debug_lines" in d:
+        import dbg_lines
+        r = common.kv("run", [{"id": "replay", "src": d["source"], "limit_ms": 5000}])[0]
+        why = dbg_lines.judge(r.get("stdout"), {int(k): v for k, v in d["debug_lines"].items()}) if r.get("status") == "ok" else "failed"
+        print(d["source"]); print(r.get("stdout")); print("why:", why)
+        if why:
+            print("VIOLATION property=%s replay=%s" % (PROP, path)); return 1
+        return 0
     res = common.kv("run", [{"id": "replay", "src": d["source"], "limit_ms": 5000}])
     print(d["source"])
     print("expected lines:", d.get("expected_lines"), "actual:", res[0].get("err_lines"))
